@@ -53,7 +53,10 @@ static void exercise(carquet_reader_t* rd, const char* modename) { carquet_error
     for (int variant = 0; variant < 3; variant++) { carquet_batch_reader_config_t cfg; carquet_batch_reader_config_init(&cfg); static const int bss[] = {1, 64, 65536}; cfg.batch_size = bss[variant]; cfg.num_threads = 1; int32_t proj[1] = {0}; if (variant == 1 && nc > 0) { cfg.column_indices = proj; cfg.num_columns = 1; }
         int usable = 1; for (int c = 0; c < nc && c < cap; c++) if (user_elem_size(ltype[c], ltl[c]) == 0) usable = 0; if (nc > cap) usable = 0; if (!usable && variant != 1) continue; if (variant == 1 && (nc == 0 || user_elem_size(ltype[0], ltl[0]) == 0)) continue;
         memset(&err, 0, sizeof err); carquet_batch_reader_t* br = carquet_batch_reader_create(rd, &cfg, &err); if (!br) { check_err("batch_reader_create", &err); continue; }
-        for (int it = 0; it < 300; it++) { carquet_row_batch_t* b = NULL; carquet_status_t st = carquet_batch_reader_next(br, &b); if (st != CARQUET_OK || !b) { if (st == CARQUET_OK && !b) viol("api:batch-next-OK-without-batch", ""); break; }
+        for (int it = 0; it < 300; it++) { carquet_row_batch_t* b = NULL; carquet_status_t st = carquet_batch_reader_next(br, &b); if (st != CARQUET_OK || !b) { if (st == CARQUET_OK && !b) viol("api:batch-next-OK-without-batch", "");
+                /* a caller may well ask again after an error or after the end: the answer must be another status, never a crash or a batch out of nowhere */
+                for (int again = 0; again < 2; again++) { carquet_row_batch_t* b2 = NULL; carquet_status_t st2 = carquet_batch_reader_next(br, &b2); v_count("batch_next_calls_after_error_or_end"); if (st2 == CARQUET_OK && b2) { if (st == CARQUET_ERROR_END_OF_DATA) viol("api:batch-delivered-after-END_OF_DATA", "rows=%lld", (long long)carquet_row_batch_num_rows(b2)); carquet_row_batch_free(b2); } else if (b2) { viol("api:batch-returned-with-error-status", "status=%d", st2); } }
+                break; }
             int64_t nr = carquet_row_batch_num_rows(b); int bc = carquet_row_batch_num_columns(b); (void)nr;
             for (int c = 0; c < bc; c++) { const void* d = NULL; const uint8_t* bm = NULL; int64_t nv = 0; if (carquet_row_batch_column(b, c, &d, &bm, &nv) != CARQUET_OK) continue; int fc = variant == 1 ? 0 : c; if (fc >= cap || nv < 0 || nv > 65536) { if (nv < 0 || nv > 65536) viol("api:batch-column-count-out-of-range", "nv=%lld", (long long)nv); continue; }
                 int64_t nulls = 0; if (bm) for (int64_t q = 0; q < nv; q++) nulls += (bm[q / 8] >> (q % 8)) & 1; if (d && nv - nulls > 0) (void)touch_values(ltype[fc], user_elem_size(ltype[fc], ltl[fc]), d, nv - nulls); }
